@@ -72,7 +72,7 @@ func (s *JsonObjectBuilder) writeKey(key string) {
 		s.sb.WriteString(", ")
 	}
 	s.sb.WriteRune('"')
-	s.sb.WriteString(key)
+	s.sb.WriteString(escape(key))
 	s.sb.WriteString("\": ")
 	s.keyCount++
 }
